@@ -16,7 +16,8 @@ RULE = ("Hypothesis: configuration x state. Pure states are prepared by real pre
         "(zero-probability outcomes present or absent at random). A case is one state on one configuration (2^n+1 circuits). "
         "Non-trivial = >= 5 Paulis of weight >= 2 with |expectation| > 1e-3 and the state not invariant under reversal of the "
         "qubit order; distinct by (n, connectivity, state description). Oracle: Tr(rho P) for all 4^n Paulis by dense algebra "
-        "(|delta| < 1e-9), exactly 4^n phase-free keys, density matrix in little-endian order.")
+        "(|delta| < 1e-9), exactly 4^n phase-free keys, density matrix in little-endian order. Additionally one state per n is "
+        "tomographed on all configurations of n one after the other in one process (both orders) to expose state carried between calls.")
 ASSUMPTIONS = ["dense simulator; little-endian conventions cross-checked in the self-test",
                "mixed states are injected behind an empty preparation circuit (the fitter never inspects the preparation part)",
                "a continuum of states is sampled; the fitter is linear in the statistics, the operator-space rank of the sample is reported"]
@@ -167,9 +168,45 @@ def shard_rank(arg):
     return rep
 
 
+def shard_sequence(arg):
+    """the same state tomographed on every configuration of n one after the other IN ONE PROCESS, in both orders: a fitter or
+    circuit factory that carries state from one configuration to the next (caches keyed too coarsely) shows up here"""
+    n, count, seed = arg
+    rep = fw.Report()
+    import math
+    names = [name for (m, name) in coupling.CONFIGS if m == n]
+    for i in range(count):
+        rng = fw.rng_for("c10seq", seed, n, i)
+        ops = []
+        for q in range(n):
+            ops.append(["ry", [q], [rng.uniform(0, 2 * math.pi)]])
+            ops.append(["rz", [q], [rng.uniform(0, 2 * math.pi)]])
+        for q in range(n - 1):
+            ops.append(["cx", [q, q + 1]])
+            ops.append(["ry", [q + 1], [rng.uniform(0, 2 * math.pi)]])
+        order = list(names)
+        rng.shuffle(order)
+        if n >= 5 and count <= 1:
+            order = order[:3]      # quick tier: three configurations in both orders (a 6-qubit tomography costs seconds)
+        seq = order + order[::-1]
+        for pos, name in enumerate(seq):
+            case = {"n": n, "connectivity": name, "components": [{"w": [1, 1], "ops": ops}], "zero_seed": i}
+            fails, want = check_tomography(case)
+            nt = (n, name, repr(ops), pos) if (want is not None and interesting(want, n)) else None
+            rep.case(nt, None)
+            rep.count("config", f"{n}-{name}")
+            rep.count("state_kind", "pure(sequence over configurations)")
+            for key, msg, extra in fails:
+                hist = [{"n": n, "connectivity": nm, "components": case["components"], "zero_seed": i} for nm in seq[: pos + 1]]
+                rep.fail(key + ":after-other-configurations", {"sequence": hist}, msg + f" [after tomography on {seq[:pos]} in the same process]", **extra)
+    return rep
+
+
 def shard_any(arg):
     if arg[0] == "rank":
         return shard_rank(arg[1:])
+    if arg[0] == "sequence":
+        return shard_sequence(arg[1:])
     return shard(arg[1:])
 
 
@@ -185,10 +222,18 @@ def run(ctx):
     for (n, name) in coupling.CONFIGS:
         if n <= (3 if q else 4):
             args.append(("rank", n, name, {2: 24, 3: 160, 4: 600}[n], ctx.seed * 1000 + 500 + n))
+    for n in (2, 3, 4, 5, 6):
+        args.append(("sequence", n, {2: 3, 3: 3, 4: 2, 5: 1, 6: 1}[n] * (1 if q else 10), ctx.seed))
+    args.sort(key=lambda a: 0 if (a[0] == "sequence" and a[1] >= 5) else 1)
     rep = fw.run_shards(ctx, "props.c10", "shard_any", args)
     rep.extra["exhaustive"] = False
     return rep
 
 
 def replay(case):
+    if "sequence" in case:
+        out = []
+        for c in case["sequence"]:
+            out = [{"key": k, "msg": m, "case": c} for k, m, e in check_tomography(c)[0]]   # the verdict is that of the last step
+        return out
     return [{"key": k, "msg": m, "case": case} for k, m, e in check_tomography(case)[0]]
